@@ -64,7 +64,7 @@ def record(rng, r, path, flavour):
 
 
 def paths_for(rng, r, n):
-    ints = ['0', '7', '-0', '007', '-12', '123456789', '00', '-007']
+    ints = ['0', '7', '-0', '007', '-12', '123456789', '00', '-007', '9007199254740993', '-18446744073709551617', '123456789012345678901234567890']
     floats = ['1.5', '2', '0.00001', '-0.0', '1.50', '100000000000000000000000', '0.000000001', '12345.678', '-3.25', '00.10', '1e5']
     words = ['a', 'b', 'tom', 'to/', 'x-y', 'é', 'a b', '', 'end', 'e', 'wiki', 'to.']
     out = []
